@@ -8,6 +8,10 @@ Two layers, both tied to the real code on every run:
      len(name), flash_pattern(name) under if / while / for; model vs the IR of the real parse(), model outputs vs
      the real firmware (g++ + mock core) and CPython; oracle = firmware observations = CPython observations for every
      program inside the guard of C03_env_fresh_partial.
+     Round 3: tuple assignment (Lang/ConstTuple.v: the temporaries form the transpiler emits, proved to be Python's
+     simultaneous assignment), parse-then-emit IR nodes (Lang/ConstNodes.v: every flash_pattern node owns its list, so
+     emission after parsing bakes the list as it was at the call), try / except as branch contexts, len(name) inside
+     right-hand sides as fold sites of the flow guard, sensor-model and Led-pin fold sites, a shrinker for failing programs.
 """
 from __future__ import annotations
 
